@@ -66,6 +66,14 @@ SUMMARY = {
  'C13-agent6': 'Local.list_files: a prefix equal to an existing directory scans only that directory and drops siblings whose names extend it',
  'C14-agent6': 'restore: "already restored" tested against files_metadata instead of files_digests: an empty newest version is overwritten by an older one',
  'C18-agent6': 'ownership tag of a listed snapshot checked only on download, not for cache hits: another key\'s cached entry is decrypted with the wrong secret',
+ 'C01-agent7': 'path arguments lying "inside" another directory argument are pruned by string prefix without a separator: siblings such as photos-2023 next to photos are never walked',
+ 'C04-agent7': 'abort flag for a failed restore kept on the Repository object and never cleared: the next restore through the object downloads nothing and reports success',
+ 'C06-agent7': 'lru_cache on _decrypt_snapshot_body keyed by (self, contents): after unlock() with another key the object serves the previous user\'s decrypted bodies',
+ 'C10-agent7': 'native chunker cached per adapter and compared by the key OBJECT: a 16-byte bytearray key changed in place keeps cutting with the old key',
+ 'C15-agent7': 'per-object set of snapshot locations "already turned down" also remembers filter mismatches: a later command with another filter never sees them',
+ 'C16-agent7': 'rate limiter may return short reads + S3 payload hashing stops at the first short read: x-amz-content-sha256 covers a prefix of the body',
+ 'C17-agent7': 'repository config served from the per-user cache directory (same idea as C05-agent6, found independently)',
+ 'C20-agent7': 'one RateLimitedIO kept per Repository; set_limit() leaves write_limit at the first command\'s value: a later restore under a lower limit runs at the old one',
  'C20-agent1': 'transfer block size floor of 16000 bytes: below 32 kB/s each block owes more than the capped debt',
 }
 rows = []
